@@ -101,7 +101,7 @@ func init() {
 				shr.Fail(p.Pos(u.Fn.Pos()), name, fmt.Sprintf("may write through its parameter #%d of shared type %s (only the type's own initialisers may)", u.Param, u.Type), nil)
 			}
 			// locks
-			lst := emod.CheckLocks(p, lacc, latm, ldbl)
+			lst := emod.CheckLocks(p, m, lacc, latm, ldbl)
 			cst := emod.CheckNoConcurrencyPrimitives(p, conc, map[string]string{
 				"internal/strobe.keccakF1600Bytes": "the one documented cast of the STROBE state array to the [25]uint64 the Keccak permutation works on",
 			})
